@@ -21,13 +21,14 @@ type RouterCfg struct {
 	CustomNF     bool
 	CustomNA     bool
 	FallbackMeth []string // methods of the "/*" route; nil = none registered
+	Order        []int    // order in which the options are passed to rux.New (a permutation; nil = fixed)
 }
 
 func (c RouterCfg) Describe() any {
 	return map[string]any{
 		"HandleMethodNotAllowed": c.NotAllowed, "HandleFallbackRoute": c.Fallback, "StrictLastSlash": c.Strict,
 		"cache_capacity": c.CacheCap, "InterceptAll": c.Intercept, "custom_NotFound": c.CustomNF, "custom_NotAllowed": c.CustomNA,
-		"fallback_route_methods": strings.Join(c.FallbackMeth, ","),
+		"fallback_route_methods": strings.Join(c.FallbackMeth, ","), "option_order": c.Order,
 	}
 }
 
@@ -47,6 +48,23 @@ func (c RouterCfg) Options() []func(*rux.Router) {
 	}
 	if c.Intercept != "" {
 		opts = append(opts, rux.InterceptAll(c.Intercept))
+	}
+	if len(c.Order) > 0 {
+		// the outcome must not depend on the order in which options are given
+		sh := make([]func(*rux.Router), 0, len(opts))
+		used := make([]bool, len(opts))
+		for _, i := range c.Order {
+			if i < len(opts) && !used[i] {
+				sh = append(sh, opts[i])
+				used[i] = true
+			}
+		}
+		for i, o := range opts {
+			if !used[i] {
+				sh = append(sh, o)
+			}
+		}
+		opts = sh
 	}
 	return opts
 }
@@ -125,6 +143,9 @@ func genCfg(r *rand.Rand) RouterCfg {
 	}
 	if chance(r, 1, 2) {
 		cfg.CacheCap = pick(r, []int{0, 1, 2, 1000})
+	}
+	if chance(r, 2, 3) {
+		cfg.Order = r.Perm(5)
 	}
 	switch r.IntN(10) {
 	case 0:
